@@ -17,6 +17,8 @@ def build(chk, ip, runner):
     chk.units = c11_hostkey.small_units() + c11_hostkey.perform_units()
     chk.stubs = c11_hostkey.perform_stubs()
     chk.lemmas = ['val_be_word']
+    chk.assumptions = ['perform_test unit: the socket (connect / get_banner / read_packet / close / is_connected) and the KexDH object (send_init, recv_reply, get_hostkey_size, get_ca_type, get_ca_size) are abstract: any result, KexDHException possible; the measured sizes are arbitrary non-negative integers',
+                       'hashlib / base64 (fingerprints) are exercised by the bounded check only']
     chk.customs = [custom_native]
     chk.level = 'other'
     chk.explanation = ('size arithmetic (byte length adjustment, exact RSA bit length, length-prefixed field reader) proved; '
